@@ -260,6 +260,12 @@ def pushString (addr : Nat) (neg : Bool) (chars : List Nat) (la : Option Nat) : 
     else (.asc addr neg chars false, chars.length)
   | none => (.asc addr neg chars false, chars.length)
 
+/-- the delimiter `push_string` chooses: `"` for negative, `'` for positive ASCII, or `&` / `/` when the string
+itself starts with that character -/
+def delimOf (neg : Bool) (s : List Nat) : Nat :=
+  let d0 : Nat := if neg then 34 else 39
+  if s.head? == some d0 then (if neg then 38 else 47) else d0
+
 /-- `try_data_run`; `none` = returned 0 (caller emits `DFB`) -/
 def tryDataRun (addr : Nat) (rest : List Nat) : Option (Line × Nat) :=
   let s := scan rest rest.length 0 {}
